@@ -60,6 +60,19 @@ def impl(case):
         live = _obs(P, e[-1] if e[0] == "obs" else case["other"], True)
         freshP = PauliString(pauli_str=str(P)) if n else PauliString(n=0)
         fr = _obs(freshP, e[-1] if e[0] == "obs" else case["other"], True)
+        # the observations must also agree with each other, whatever iterations were started and abandoned before
+        # (iteration protocol state is part of the object): letters by index = letters by iteration = text
+        incons = []
+        if n:
+            for how, f in (("next(iter(P))", lambda: next(iter(P), None)), ("any(...)", lambda: any(True for _ in P)),
+                           ("zip(range(1), P)", lambda: list(zip(range(1), P))), ("break", lambda: [x for x, _ in zip(P, range(max(1, n // 2)))])):
+                f()
+                got = [str(x) for x in P]
+                if got != list(str(P)):
+                    incons.append("after an abandoned iteration %s a full iteration yields %s, text %s" % (how, got, str(P)))
+            if live["letters_idx"] != list(live["str"]) or live["letters_iter"] != list(live["str"]) or live["len"] != len(live["str"]):
+                incons.append("letters by index %s, by iteration %s, text %s" % (live["letters_idx"], live["letters_iter"], live["str"]))
+        st["inconsistent"] = incons
         st["diff"] = sorted(k for k in live if live[k] != fr[k])
         if st["diff"]:
             st["live"] = {k: live[k] for k in st["diff"]}; st["fresh"] = {k: fr[k] for k in st["diff"]}
@@ -156,6 +169,10 @@ def main():
                 stats["inc" if e[0] == "inc" else "set"] += 1
                 if f[5] == "IndexError":
                     stats["IndexError_steps"] += 1
+                if st.get("inconsistent"):
+                    ck.fail(None, "after %s on %s: %s" % (c["edits"][:i], c["init"], "; ".join(st["inconsistent"])[:400]),
+                            {"case": dict(c, edits=c["edits"][:i]), "inconsistent": st["inconsistent"]})
+                    bad = "reported"; break
                 # the property itself: every observation of the live object equals that of a fresh object from its text
                 if st["diff"]:
                     ck.fail(None, "after %s on %s: live object and a fresh PauliString(%s) differ in %s" % (c["edits"][:i], c["init"], st["str"], st["diff"]),
